@@ -59,6 +59,13 @@ LEGACY = {
     "entities-ns": {"survey": [{"type": "text", "name": "a", "label": "A", "save_to": "p"}], "entities": [{"list_name": "t", "label": "${a}"}],
                     "settings": [{"namespaces": 'zz="http://zz.example"'}]},
 }
+# dict input with explicitly empty cells inside grouped columns (a spreadsheet reader would drop them, the dict API keeps them)
+for _i, _cells in enumerate([
+        {"label::en": "A", "label::fr": ""}, {"label::en": "A", "hint::en": "", "hint::fr": "H"}, {"label": "A", "media::image::en": "", "media::image::fr": "a.png"},
+        {"label::en": "", "label::fr": "Af", "constraint": ". != 1", "constraint_message::en": "", "constraint_message::fr": "M"}]):
+    LEGACY[f"empty-nested-{_i}"] = {"survey": [{"type": "text", "name": "q", **_cells},
+                                               {"type": "begin group", "name": "g", "label::en": "G", "label::fr": "", "bind::foo": "", "relevant": "${q} != ''"},
+                                               {"type": "text", "name": "i", "label": "I", "instance::x": "", "body::y": ""}, {"type": "end group"}]}
 KNOWN_LEGACY = {
     "add-none-option": {"survey": [{"type": "select_multiple c", "name": "s", "label": "S"}], "choices": CH2, "settings": [{"add_none_option": "yes"}]},
 }
